@@ -938,6 +938,17 @@ def part_copy_passes(ctx):
                 r = recs[i]
                 ok = o[0] == 1 and not r.get("dead") and not r.get("recheck_bad")
                 verdict[i] = "accepted" if ok else "rejected"
+                if o[0] != 1 and r["pass"] == RO and not r.get("dead") and not r.get("recheck_bad"):
+                    # domain limit of the certificates: the source of a staging copy is a phi of pointers into different
+                    # allocations (or a multiply defined variable): no region is known for it
+                    C = certificates(r["before"])
+                    defs = r["before"].defs()
+                    unc = [x for _, _, x, y in changes(r) if x[0] == "mcopy" and y[0] == "nop"
+                           and r["before"].root(x[1][1], defs)[0] == "var" and r["before"].root(x[1][1], defs)[1] not in C]
+                    if unc:
+                        why = "source of the staging copy has no pointer certificate (phi of different allocations)"
+                        verdict[i] = "unsupported"
+                        stats["unsupported_reasons"][why] = stats["unsupported_reasons"].get(why, 0) + 1
                 r["why"] = {"check_func": o[0], "certs_ok": o[1], "blocks_ok": o[2], "dead_copy_check": r.get("dead"),
                             "readonly_recheck_failures": {f"{k[0]}#{k[1]}": v for k, v in r.get("recheck_bad", {}).items()}}
         except RuntimeError as e:
@@ -947,32 +958,38 @@ def part_copy_passes(ctx):
     stats["readonly_facts_rechecked"] = sum(r.get("recheck_used", 0) for r in recs)
     t2 = time.time()
     entries = {c["name"]: c for c in progs}
-    searched, reported = {}, 0
+    own = {c["name"] for c in COPY_CORPUS}
     for i, r in enumerate(recs):
         v = verdict.get(i, "not-evaluated")
         d = stats["verdicts"].setdefault(r["pass"], {})
         d[v] = d.get(v, 0) + 1
-        if v != "rejected":
-            continue
+    # rejected invocations: search (programs written for these passes first), report failing inputs first
+    rej = sorted([r for i, r in enumerate(recs) if verdict.get(i) == "rejected"], key=lambda r: (r["context"][0] not in own, r["context"][0]))
+    searched, found, unfound = {}, [], []
+    for r in rej:
         prog, lvl = r["context"]
-        if (prog, lvl, r["pass"]) not in searched:
+        k = (prog, lvl, r["pass"])
+        if k not in searched and len(searched) < (6 if quick else 12) and len(found) < 3:
             try:
                 from vlib.c14m_part import search
-                searched[(prog, lvl, r["pass"])] = search(entries[prog], lvl, r["pass"], ctx.seed, ctx.tier)
+                searched[k] = search(entries[prog], lvl, r["pass"], ctx.seed, ctx.tier)
             except Exception as e:  # noqa
-                searched[(prog, lvl, r["pass"])] = None
+                searched[k] = None
                 ctx.log(f"  c14c search failed for {prog}/{lvl}: {type(e).__name__}: {e}")
-        s = searched[(prog, lvl, r["pass"])]
+        (found if searched.get(k) is not None else unfound).append(r)
+    stats["rejected_searched"] = len(searched)
+    reported = 0
+    for r in (found[:3] if found else unfound[:3]):
+        prog, lvl = r["context"]
+        s = searched.get((prog, lvl, r["pass"]))
         ch = changes(r) or []
         detail = {"pass": r["pass"], "program": prog, "config": f"venom-{lvl}-cancun", "function": r["fn"], "theorem": "copyfwd_check_sound",
                   "checker": r.get("why"), "changes": [{"block": bi, "index": j, "before": fmt_inst(x, r["before"].names), "after": fmt_inst(y, r["before"].names)}
                                                         for bi, j, x, y in ch[:12]],
                   "function_before": r["before"].text[:6000]}
-        if reported >= 3:
-            continue
         reported += 1
         if s is not None:
-            ctx.violation("failing-input", f"{r['pass']} makes a rewrite that check_func rejects and the compiled contract {prog} ({lvl}) behaves "
+            ctx.violation("failing-input", f"{r['pass']} makes a rewrite that the validator rejects and the compiled contract {prog} ({lvl}) behaves "
                           "differently from the reference" + (" (localised: equal to the reference with the pass skipped)" if s["localised"] else ""),
                           dict(detail, source=entries[prog]["src"], call=s["call"], difference=s["diff"], localised_to_pass=s["localised"],
                                expected="same status / return data / logs / storage as legacy -O none"), key=f"C14C:{r['pass']}:{prog}")
